@@ -135,6 +135,62 @@ def _chunk(recs):
   return out
 
 
+def racing_completion(ctx):
+  """A stateful policy reads the study twice inside one SuggestTrials (newly completed trials, then ACTIVE ones) with
+  nothing but the order of the two reads between it and a concurrent CompleteTrial.  The completion is injected right
+  after the k-th listing of the racing call; whatever k, no update may hold a trial both as completed and as active, and
+  over the following requests the trial is delivered as completed exactly once."""
+  import world
+  conf = {'Studies': ['s1'], 'Clients': ['w1', 'w2'], 'MaxId': 4, 'Cells': ['c1'], 'Recycle': 'never'}
+
+  def sug(w):
+    return {'rpc': 'SuggestTrials', 's': 's1', 'w': w, 'n': 1, 'env': {'raise': False, 'ps': ['p1'], 'md': {'c1': 'None'}}}
+  n = 0
+  for mode in ('stateful', 'fresh'):
+    for k in (1, 2, 3, 4):
+      log = []
+      FORMAT[0] = 0
+      svc = world.make_servicer(None, 'never', make_factory(mode, log))
+      w = world.World(conf, svc=svc, backend='ram')
+      w.run({'rpc': 'CreateStudy', 's': 's1', 'cfg': 'max1'})
+      w.run(sug('w1'))                      # trial 1, ACTIVE, held by w1
+      orig = svc.ListTrials
+      state = {'count': 0, 'fired': False}
+
+      def listing(request, context=None, orig=orig, state=state, w=w, k=k):
+        r = orig(request, context)
+        state['count'] += 1
+        if not state['fired'] and state['count'] == k:
+          state['fired'] = True
+          w.run({'rpc': 'CompleteTrial', 's': 's1', 't': 1, 'f': 'm1', 'inf': False, 'reason': ''})
+        return r
+      svc.ListTrials = listing
+      first = len(log)
+      w.run(sug('w2'))                      # the racing call
+      svc.ListTrials = orig
+      w.run(sug('w1'))                      # w1's trial is completed: a fresh consultation
+      w.run({'rpc': 'CompleteTrial', 's': 's1', 't': 2, 'f': 'm1', 'inf': False, 'reason': ''})
+      w.run(sug('w2'))
+      n += 1
+      if not state['fired']:
+        continue                            # fewer than k listings in that call: nothing was injected
+      updates = log[first:]
+      both = [u for u in updates if set(u['completed']) & set(u['active'])]
+      times = sum(1 for u in updates if 1 in u['completed'])
+      what = None
+      if both:
+        what = 'completed-and-active-in-one-update'
+      elif mode == 'stateful' and times != 1:
+        what = 'completed-twice' if times > 1 else 'completed-missed'
+      elif mode == 'fresh' and not (updates and 1 in updates[-1]['completed']):
+        what = 'completed-missed'
+      if what:
+        ctx.violation({'via': 'racing-completion', 'mode': mode, 'what': what},
+                      {'kind': 'racing-completion', 'mode': mode, 'inject_after_listing': k, 'updates': updates})
+  ctx.coverage['racing_completion'] = {'scenarios': n, 'modes': ['stateful', 'fresh'], 'injection_points': [1, 2, 3, 4]}
+  ctx.log('  racing completion: %d scenarios (CompleteTrial injected after the k-th listing of a SuggestTrials)' % n)
+
+
 def run(ctx, only=None):
   import concurrent.futures as cf
   import multiprocessing
@@ -197,6 +253,7 @@ def run(ctx, only=None):
     # the views the delivery rule reads through (spec/TrialView.tla)
     import c12_view
     c12_view.run(ctx, d)
+    racing_completion(ctx)
   cov['distinct_nontrivial'] = len(nontrivial)
   cov['evaluations'] = cov['traces_validated_against_impl']
   cov['rule'] = 'a case is one call history on the real service with a recording designer registered through PolicyFactory; distinct by call sequence'
@@ -205,6 +262,10 @@ def run(ctx, only=None):
 
 def replay(ctx, case):
   c = case['case']
+  if c.get('kind') == 'racing-completion':
+    racing_completion(ctx)
+    ctx.coverage.update({'states': 1, 'transitions': 1, 'traces_validated_against_impl': 1})
+    return
   if c.get('kind') == 'trial-view':
     import c12_view
     return c12_view.replay(ctx, c)
